@@ -26,6 +26,7 @@ type wDriver struct {
 	pre     string // absent | old | cur | dead | gone
 	threads [][]wOp
 	rev     bool // start the harness threads in reverse order
+	fine    bool // plain stores to shared memory are scheduling points too
 }
 
 func (d wDriver) name() string {
@@ -40,6 +41,9 @@ func (d wDriver) name() string {
 	r := ""
 	if d.rev {
 		r = "/rev"
+	}
+	if d.fine {
+		r += "/fine"
 	}
 	return fmt.Sprintf("%s/pre=%s/%s%s", d.cfg, d.pre, strings.Join(ts, "|"), r)
 }
@@ -78,6 +82,8 @@ func wDrivers(tier string) []wDriver {
 				out = append(out, wDriver{cfg: cfg, pre: pre, threads: ts})
 				if len(ts[0]) == 1 && len(ts[1]) == 1 {
 					out = append(out, wDriver{cfg: cfg, pre: pre, threads: ts, rev: true})
+					// the same races with plain stores (deadSn, link fields, writer-local counters) as scheduling points
+					out = append(out, wDriver{cfg: cfg, pre: pre, threads: ts, fine: true})
 				}
 			}
 			for _, ts := range triples {
@@ -196,9 +202,11 @@ func runWDriver(jc *JobCtx, d wDriver, model vrt.CostModel, bound int) {
 				}
 			}))
 		}
+		vrt.FineMode = d.fine
 		vrt.NoBranch(false)
 		vrt.Join(ths...)
 		vrt.NoBranch(true)
+		vrt.FineMode = false
 		vrt.WaitIdle()
 		call := vrt.Fence()
 		s, err := e.db.NewSnapshot()
